@@ -52,3 +52,5 @@ unsigned long long verif_dctx_dictSize(const LZ4F_dctx* d) { return (unsigned lo
 long long verif_dctx_tmpOut_off(const LZ4F_dctx* d) { return d->tmpOut == NULL ? 0 : (long long)(d->tmpOut - d->tmpOutBuffer); }
 unsigned long long verif_dctx_tmpOutSize(const LZ4F_dctx* d) { return (unsigned long long)d->tmpOutSize; }
 unsigned long long verif_dctx_tmpOutStart(const LZ4F_dctx* d) { return (unsigned long long)d->tmpOutStart; }
+/* address of tmpOutBuffer (to read back what the dictionary bytes really are: C08_dict_is_history_refuted replay) */
+unsigned long long verif_dctx_tmpOutBuffer(const LZ4F_dctx* d) { return (unsigned long long)(size_t)d->tmpOutBuffer; }
